@@ -326,7 +326,7 @@ func (g *gen) tim(d int, leaf bool) string {
 
 func (g *gen) any(d int, leaf bool) string {
 	if leaf {
-		return g.pick([]string{"null", "z1", "this", "o1", "o1.c", "nope", "nope.x", "l1", "st1", "1", "'s'", "true", "$a", "ctx", "m1"})
+		return g.pick([]string{"null", "z1", "this.s1", "o1", "o1.c", "nope", "nope.x", "l1", "st1", "1", "'s'", "true", "$a", "ctx", "m1"})
 	}
 	e := func(t int) string { return g.expr(t, d+1) }
 	switch g.s.Intn(14) {
